@@ -62,12 +62,12 @@ pub fn gen_transfer(rng: &mut Rng, from: usize, sw: i32, sh: i32, dw: i32, dh: i
     }
 }
 
-pub fn gen_c15(rng: &mut Rng, _thorough: bool) -> History {
+pub fn gen_c15(rng: &mut Rng, thorough: bool) -> History {
     let ns = 2 + rng.usize(2);
     let zero_ok = rng.chance(1, 3);
-    let surfaces: Vec<SurfSpec> = (0..ns).map(|_| gen_surface(rng, 16, zero_ok, false)).collect();
+    let surfaces: Vec<SurfSpec> = (0..ns).map(|_| if thorough && rng.chance(1, 16) { gen_surface_big(rng, false) } else { gen_surface(rng, if thorough { 33 } else { 16 }, zero_ok, false) }).collect();
     let mut em = Emit::new(surfaces);
-    let n = 2 + rng.usize(9);
+    let n = 2 + rng.usize(if thorough { 18 } else { 9 });
     let draw = DrawCfg::general();
     while em.steps.len() < n {
         let si = rng.usize(ns);
@@ -751,11 +751,11 @@ fn c07_clip_rect(rng: &mut Rng, w: i32, h: i32) -> [i32; 4] {
     }
 }
 
-pub fn gen_c07(rng: &mut Rng, _thorough: bool) -> History {
+pub fn gen_c07(rng: &mut Rng, thorough: bool) -> History {
     let ns = 1 + rng.usize(2);
-    let surfaces: Vec<SurfSpec> = (0..ns).map(|_| gen_surface(rng, 64, true, true)).collect();
+    let surfaces: Vec<SurfSpec> = (0..ns).map(|_| if rng.chance(1, if thorough { 10 } else { 40 }) { gen_surface_big(rng, true) } else { gen_surface(rng, 64, true, true) }).collect();
     let mut em = Emit::new(surfaces);
-    let n = 1 + rng.usize(25);
+    let n = 1 + rng.usize(if thorough { 40 } else { 25 });
     while em.steps.len() < n {
         let si = rng.usize(ns);
         let (w, h) = em.dims(si);
